@@ -21,8 +21,13 @@ class StepTimeout(BaseException):
     """wall-clock cap of one call: the call is unjudged"""
 
 
+EXIT_AFTER = False
+
+
 def capped(seconds, fn):
     def handler(signum, frame):
+        global EXIT_AFTER
+        EXIT_AFTER = True      # objects in flight when the timer fired may be half-updated: fresh process for the next task
         raise StepTimeout()
     old = signal.signal(signal.SIGALRM, handler)
     signal.setitimer(signal.ITIMER_REAL, seconds)
@@ -66,15 +71,16 @@ _cache = {}
 
 def run(task):
     DerivationTree.next_id = max(DerivationTree.next_id, 1000000)
-    g = pj.json_to_grammar(task["g"])
-    key = repr(sorted(g.items()))
-    if key not in _cache:
-        _cache.clear()
-        _cache[key] = gg.GrammarGraph.from_grammar(g)
-    graph = _cache[key]
+    for n, gj in task["gs"].items():
+        g = pj.json_to_grammar(gj)
+        key = n + repr(sorted(g.items()))
+        if key not in _cache:
+            _cache[key] = gg.GrammarGraph.from_grammar(g)
+        _cache[n] = _cache[key]
     out = []
     for row in task["rows"]:
         a, name = row["a"], row["name"]
+        graph = _cache[row["grammar"]]
         rec = {"id": row["id"], "res": "ok", "exc": ""}
         random.seed(row.get("seed", 0))
         try:
